@@ -1229,6 +1229,10 @@ func conv(i *interpreter, t_dst, t_src types.Type, x value) value {
 		switch ut_src.Elem().Underlying().(*types.Basic).Kind() {
 		case types.Byte:
 			x := x.([]value)
+			if b := blobOf(x); b != nil {
+				// the text of a serialised value: opaque (may reach logs and error texts only)
+				return fmt.Sprintf("%sblob#%d%s", symMarker, b.id, symMarkerEnd)
+			}
 			return string(concreteBytes(x, "[]byte -> string conversion"))
 
 		case types.Rune:
